@@ -285,6 +285,11 @@ theorem doClear_ids {w : World} (h : IdsOK w) (c : Nat) : IdsOK (doClear w c) :=
   · exact h.clear c rfl rfl rfl
   · exact h.tok _ rfl rfl rfl rfl
 
+theorem doGsub_ids {w : World} (h : IdsOK w) (e c : Nat) (add : Bool) : IdsOK (doGsub w e c add) := by
+  unfold doGsub
+  repeat' split
+  all_goals exact h.tok _ rfl rfl rfl rfl
+
 theorem execOp_ids {w : World} (h : IdsOK w) (op : SOp) : IdsOK (execOp w op) := by
   cases op <;> simp only [execOp]
   · exact doSub_ids h ..
@@ -293,6 +298,8 @@ theorem execOp_ids {w : World} (h : IdsOK w) (op : SOp) : IdsOK (execOp w op) :=
   · exact doPub_ids h ..
   · exact doGpub_ids h ..
   · exact doClear_ids h ..
+  · exact doGsub_ids h ..
+  · exact doGsub_ids h ..
 
 
 theorem closeDisp_ids {w : World} (h : IdsOK w) (g : List GTok) (rest : List Frame) (p c e : Nat) (snap : List Nat) (lt : Bool) :
@@ -420,6 +427,11 @@ theorem doClear_fix {w : World} (h : FixOK w) (c : Nat) : FixOK (doClear w c) :=
   unfold doClear
   split <;> exact h.of_eq rfl rfl rfl
 
+theorem doGsub_fix {w : World} (h : FixOK w) (e c : Nat) (add : Bool) : FixOK (doGsub w e c add) := by
+  unfold doGsub
+  repeat' split
+  all_goals exact h.of_eq rfl rfl rfl
+
 theorem execOp_fix {w : World} (h : FixOK w) (op : SOp) : FixOK (execOp w op) := by
   cases op <;> simp only [execOp]
   · exact doSub_fix h ..
@@ -428,6 +440,8 @@ theorem execOp_fix {w : World} (h : FixOK w) (op : SOp) : FixOK (execOp w op) :=
   · exact doPub_fix h ..
   · exact h.of_eq rfl rfl rfl
   · exact doClear_fix h ..
+  · exact doGsub_fix h ..
+  · exact doGsub_fix h ..
 
 theorem closeDisp_fix {w : World} (h : FixOK w) (g : List GTok) (rest : List Frame) (p c e : Nat) (snap : List Nat) (lt : Bool) :
     FixOK (closeDisp w g rest p c e snap lt) := by
@@ -479,8 +493,9 @@ theorem reach_ids {w : World} (h : Reach w) : IdsOK w := by
 
 /-! ### RegOK: registration in the global centre follows the listener lists -/
 structure RegOK (w : World) : Prop where
-  /-- the global centre lists centre `c` under name `e` exactly when that list's Global flag is set -/
-  iff : ∀ c e, (e, c) ∈ w.greg ↔ (c, e) ∈ w.gflag
+  /-- the global centre lists centre `c` under name `e` exactly when that list's Global flag is set — unless
+  somebody called the global centre's Subscribe/Unsubscribe for that pair directly -/
+  iff : ∀ c e, (e, c) ∉ w.direct → ((e, c) ∈ w.greg ↔ (c, e) ∈ w.gflag)
   /-- a flagged list is not empty (the last unsubscribe clears the flag and deregisters) -/
   nonempty : ∀ c e, (c, e) ∈ w.gflag → ∃ l ∈ w.subs, l.c = c ∧ l.e = e
   /-- a live global subscription keeps its list flagged -/
@@ -499,10 +514,19 @@ theorem mem_insertP {x y : Nat × Nat} {l : List (Nat × Nat)} : y ∈ insertP x
 theorem mem_eraseP {x y : Nat × Nat} {l : List (Nat × Nat)} : y ∈ eraseP x l ↔ y ∈ l ∧ y ≠ x := by
   simp [eraseP, List.mem_filter]
 
+theorem insertP_of_mem {x : Nat × Nat} {l : List (Nat × Nat)} (h : x ∈ l) : insertP x l = l := by
+  simp [insertP, h]
+
+theorem insertP_idem (x : Nat × Nat) (l : List (Nat × Nat)) : insertP x (insertP x l) = insertP x l :=
+  insertP_of_mem (mem_insertP.mpr (Or.inl rfl))
+
+theorem eraseP_idem (x : Nat × Nat) (l : List (Nat × Nat)) : eraseP x (eraseP x l) = eraseP x l := by
+  simp [eraseP, List.filter_filter]
+
 theorem RegOK.of_eq {w w' : World} (h : RegOK w) (h1 : w'.subs = w.subs) (h2 : w'.gflag = w.gflag)
-    (h3 : w'.greg = w.greg) : RegOK w' := by
+    (h3 : w'.greg = w.greg) (h4 : w'.direct = w.direct := by rfl) : RegOK w' := by
   refine ⟨?_, ?_, ?_⟩
-  · rw [h2, h3]; exact h.iff
+  · rw [h2, h3, h4]; exact h.iff
   · rw [h1, h2]; exact h.nonempty
   · rw [h1, h2]; exact h.glob
 
@@ -521,9 +545,9 @@ theorem RegOK.add_plain {w : World} (h : RegOK w) (l : Sub) (hg : l.glob = true 
 theorem RegOK.add_flag {w : World} (h : RegOK w) (l : Sub) :
     RegOK { w with subs := w.subs ++ [l], gflag := insertP (l.c, l.e) w.gflag, greg := insertP (l.e, l.c) w.greg } := by
   refine ⟨?_, ?_, ?_⟩
-  · intro c e
+  · intro c e hd
     simp only [mem_insertP, Prod.mk.injEq]
-    rw [h.iff c e]
+    rw [h.iff c e hd]
     constructor <;> rintro (⟨h1, h2⟩ | h') <;> first | exact Or.inl ⟨h2, h1⟩ | exact Or.inr h'
   · intro c e hm
     simp only [mem_insertP, Prod.mk.injEq] at hm
@@ -574,9 +598,9 @@ theorem removeSub_reg {w : World} (h : RegOK w) (c e id : Nat) : RegOK (removeSu
         lisOf_mem.mpr ⟨hl, hce.1, hce.2⟩
       rw [hemp] at this; simp at this
     refine ⟨?_, ?_, ?_⟩
-    · intro c' e'
+    · intro c' e' hd
       simp only [mem_eraseP, ne_eq, Prod.mk.injEq]
-      rw [h.iff c' e']
+      rw [h.iff c' e' hd]
       constructor <;> rintro ⟨h1, h2⟩ <;> exact ⟨h1, fun hh => h2 ⟨hh.2, hh.1⟩⟩
     · intro c' e' hm
       simp only [mem_eraseP, ne_eq, Prod.mk.injEq] at hm
@@ -625,12 +649,21 @@ theorem removeSub_reg {w : World} (h : RegOK w) (c e id : Nat) : RegOK (removeSu
 theorem RegOK.clear {w w' : World} (h : RegOK w) (c : Nat)
     (hs : w'.subs = w.subs.filter (fun l => !(l.c == c)))
     (hg : w'.gflag = w.gflag.filter (fun x => !(x.1 == c)))
-    (hr : w'.greg = w.greg.filter (fun x => !(x.2 == c))) : RegOK w' := by
+    (hr : w'.greg = w.greg.filter (fun x => !(x.2 == c && w.gflag.contains (c, x.1))))
+    (hdir : w'.direct = w.direct := by rfl) : RegOK w' := by
   refine ⟨?_, ?_, ?_⟩
-  · intro c' e'
+  · intro c' e' hd
     rw [hg, hr]
-    simp only [List.mem_filter, Bool.not_eq_true', beq_eq_false_iff_ne, ne_eq]
-    rw [h.iff c' e']
+    simp only [List.mem_filter, Bool.not_eq_true', beq_eq_false_iff_ne, ne_eq, Bool.and_eq_false_iff,
+      List.contains_eq_mem, decide_eq_false_iff_not]
+    rw [h.iff c' e' (hdir ▸ hd)]
+    constructor
+    · rintro ⟨h1, h2⟩
+      refine ⟨h1, ?_⟩
+      rcases h2 with h2 | h2
+      · exact h2
+      · intro hcc; subst hcc; exact h2 h1
+    · rintro ⟨h1, h2⟩; exact ⟨h1, Or.inl h2⟩
   · intro c' e' hm
     rw [hg] at hm; rw [hs]
     simp only [List.mem_filter, Bool.not_eq_true', beq_eq_false_iff_ne, ne_eq] at hm
@@ -675,6 +708,24 @@ theorem doPub_reg {w : World} (h : RegOK w) (c e : Nat) (a : List Nat) : RegOK (
     | exact openDisp_reg h ..
     | exact h.of_eq rfl rfl rfl
 
+/-- a direct call changes the registration of that one (name, centre) pair only, and marks it -/
+theorem doGsub_reg {w : World} (h : RegOK w) (e c : Nat) (add : Bool) : RegOK (doGsub w e c add) := by
+  unfold doGsub
+  split
+  · split
+    · exact h.of_eq rfl rfl rfl
+    · refine ⟨?_, h.nonempty, h.glob⟩
+      intro c' e' hd
+      simp only [emit, mem_insertP, not_or, Prod.mk.injEq, not_and] at hd ⊢
+      have hne : ¬((e', c') = (e, c)) := by simpa using hd.1
+      rw [← h.iff c' e' hd.2]
+      cases add
+      · simp only [Bool.false_eq_true, if_false, mem_eraseP, ne_eq]
+        exact ⟨fun hh => hh.1, fun hh => ⟨hh, hne⟩⟩
+      · simp only [if_true, mem_insertP]
+        exact ⟨fun hh => hh.resolve_left hne, Or.inr⟩
+  · exact h.of_eq rfl rfl rfl
+
 theorem execOp_reg {w : World} (h : RegOK w) (op : SOp) : RegOK (execOp w op) := by
   cases op <;> simp only [execOp]
   · exact doSub_reg h ..
@@ -683,6 +734,8 @@ theorem execOp_reg {w : World} (h : RegOK w) (op : SOp) : RegOK (execOp w op) :=
   · exact doPub_reg h ..
   · exact h.of_eq rfl rfl rfl
   · exact doClear_reg h ..
+  · exact doGsub_reg h ..
+  · exact doGsub_reg h ..
 
 theorem stepDisp_reg {w : World} (h : RegOK w) (rest : List Frame) (p c e : Nat) (a snap called : List Nat) :
     RegOK (stepDisp w rest p c e a snap called) := by
@@ -964,6 +1017,13 @@ theorem doClear_fr {w : World} (h : FrOK w) (c : Nat) : FrOK (doClear w c) := by
   unfold doClear
   split <;> exact h.tok _ rfl rfl rfl rfl
 
+theorem doGsub_fr {w : World} (h : FrOK w) (e c : Nat) (add : Bool) : FrOK (doGsub w e c add) := by
+  unfold doGsub
+  repeat' split
+  all_goals first
+    | exact h.tok _ rfl rfl rfl rfl
+    | (cases add <;> exact h.tok _ rfl rfl rfl rfl)
+
 theorem execOp_fr {w : World} (h : FrOK w) (op : SOp) : FrOK (execOp w op) := by
   cases op <;> simp only [execOp]
   · exact doSub_fr h ..
@@ -972,6 +1032,8 @@ theorem execOp_fr {w : World} (h : FrOK w) (op : SOp) : FrOK (execOp w op) := by
   · exact doPub_fr h ..
   · exact h.tok _ rfl rfl rfl rfl
   · exact doClear_fr h ..
+  · exact doGsub_fr h ..
+  · exact doGsub_fr h ..
 
 theorem stepDisp_fr {w : World} (h : FrOK w) (hc : w.cfg = Cfg.fixed) (rest : List Frame) (p c e : Nat)
     (a snap called : List Nat) (hst : w.stack = .disp p c e a snap called :: rest) :
@@ -1186,6 +1248,13 @@ theorem doClear_sub {w : World} (h : SubOK w) (c : Nat) : SubOK (doClear w c) :=
   · exact h.tok _ rfl rfl (fun _ hl => (List.mem_filter.mp hl).1) (fun _ hx => hx) rfl
   · exact h.tok _ rfl rfl (fun _ hl => hl) (fun _ hx => hx) rfl
 
+theorem doGsub_sub {w : World} (h : SubOK w) (e c : Nat) (add : Bool) : SubOK (doGsub w e c add) := by
+  unfold doGsub
+  repeat' split
+  all_goals first
+    | exact h.tok _ rfl rfl (fun _ hl => hl) (fun _ hx => hx) rfl
+    | (cases add <;> exact h.tok _ rfl rfl (fun _ hl => hl) (fun _ hx => hx) rfl)
+
 theorem execOp_sub {w : World} (h : SubOK w) (op : SOp) : SubOK (execOp w op) := by
   cases op <;> simp only [execOp]
   · exact doSub_sub h ..
@@ -1194,6 +1263,8 @@ theorem execOp_sub {w : World} (h : SubOK w) (op : SOp) : SubOK (execOp w op) :=
   · exact doPub_sub h ..
   · exact h.tok _ rfl rfl (fun _ hl => hl) (fun _ hx => hx) rfl
   · exact doClear_sub h ..
+  · exact doGsub_sub h ..
+  · exact doGsub_sub h ..
 
 theorem stepDisp_sub {w : World} (h : SubOK w) (hfr : FrOK w) (hc : w.cfg = Cfg.fixed) (rest : List Frame) (p c e : Nat)
     (a snap called : List Nat) (hst : w.stack = .disp p c e a snap called :: rest) :
@@ -1485,6 +1556,11 @@ theorem doClear_q {w : World} (h : QOK w) (c : Nat) : QOK (doClear w c) := by
       exact ⟨cti, hi, rfl⟩
   · exact h.tok _ (same_queues w) rfl
 
+theorem doGsub_q {w : World} (h : QOK w) (e c : Nat) (add : Bool) : QOK (doGsub w e c add) := by
+  unfold doGsub
+  repeat' split
+  all_goals exact h.tok _ (same_queues w) rfl
+
 theorem execOp_q {w : World} (h : QOK w) (op : SOp) : QOK (execOp w op) := by
   cases op <;> simp only [execOp]
   · exact doSub_q h ..
@@ -1493,6 +1569,8 @@ theorem execOp_q {w : World} (h : QOK w) (op : SOp) : QOK (execOp w op) := by
   · exact doPub_q h ..
   · exact doGpub_q h ..
   · exact doClear_q h ..
+  · exact doGsub_q h ..
+  · exact doGsub_q h ..
 
 theorem stepDisp_q {w : World} (h : QOK w) (rest : List Frame) (p c e : Nat) (a snap called : List Nat) :
     QOK (stepDisp w rest p c e a snap called) := by
